@@ -6,7 +6,9 @@ Model: `Model/Converter.lean` (`step`, `run`), `Model/ConvFlush.lean` (`flushAll
 Specification side: `ConvSpec.accepted` — the samples of the history other than idle-thread samples and
 exact same-thread same-timestamp repeats, computed from the bare record list.
 
-Main theorems (for every configuration and every record history, no grammar assumption):
+Main theorems (for every configuration and every record history, no grammar assumption; they describe the
+output `views (run cfg rs)` of a conversion that does not panic — see "Panics" below for the hypothesis that
+needs):
 
 * `C01_conservation` (default options, `cfg.reuse = false`):
 
@@ -259,6 +261,42 @@ theorem C01_membership (cfg : Config) (rs : List Rec) (hr : cfg.reuse = false) (
     obtain ⟨o, ho, heq⟩ := List.mem_map.mp hin
     simp only [Prod.mk.injEq] at heq
     exact ⟨v, hv, heq.1, heq.2.1, o, ho, heq.2.2.1⟩
+
+/-! ### Panics: the hypothesis "per-thread sample times nondecreasing"
+
+`handle_main_event_sample` hands *every* sample to `ContextSwitchHandler::handle_on_cpu_sample`
+(converter.rs:283-285), which subtracts the thread's previous sample time (`shared/context_switch.rs:147`). The
+model carries this as `St.bad` (`wake` → `CS.stepSafe`); the driver prints `panic` when it is set, and the
+conservation theorems above are statements about `views (run cfg rs)` of a conversion that did not panic.
+`ConvSpec.samplesMonotone rs` (per thread incarnation, accepted sample times never decrease) is the hypothesis
+under which a recording without context-switch records does not panic there; every file that keeps perf's
+round contract satisfies it. Outside it the debug build panics: -/
+
+/-- One sample step: with no off-CPU bookkeeping pending (`cs.state = .on t0`, the state every sampled thread
+of a recording without switch records is in), the conversion panics exactly when the sample is older than
+the thread's previous one. -/
+theorem C01_sample_panics_iff (s : St) (th : ThreadC) (pid tid t period t0 : Nat) (stack : List SFrame)
+    (hst : th.cs.state = .on t0) :
+    (sampleThread s th pid tid t period stack).2.2 = decide (t0 ≤ t) := by
+  obtain ⟨h, lastTs, name, cs, offStack⟩ := th
+  obtain ⟨state, onAcc, offAcc⟩ := cs
+  simp only at hst
+  subst hst
+  simp only [sampleThread, wake, CS.step, CS.stepSafe]
+
+/-- A back-dated sample of a known thread (a file whose round N+2 is older than round N delivers it): the
+conversion panics — outside `samplesMonotone`, and the only record kinds are COMM and SAMPLE. -/
+theorem C01_backdated_sample_panics :
+    (run { ref := 1000 } [.comm 100 100 "app" false 1000, .sample 100 100 3000 false 1 0x10 [],
+      .sample 100 100 2000 false 1 0x10 []]).bad = true ∧
+    samplesMonotone [.comm 100 100 "app" false 1000, .sample 100 100 3000 false 1 0x10 [],
+      .sample 100 100 2000 false 1 0x10 []] = false ∧
+    -- the same records in time order: no panic, and the hypothesis holds
+    (run { ref := 1000 } [.comm 100 100 "app" false 1000, .sample 100 100 2000 false 1 0x10 [],
+      .sample 100 100 3000 false 1 0x10 []]).bad = false ∧
+    samplesMonotone [.comm 100 100 "app" false 1000, .sample 100 100 2000 false 1 0x10 [],
+      .sample 100 100 3000 false 1 0x10 []] = true := by
+  refine ⟨by decide, by decide, by decide, by decide⟩
 
 /-! ### Non-vacuity -/
 def C01_exHistory : List Rec :=
